@@ -368,7 +368,11 @@ class SpecMixin(object):
     lam = n.args[0]
     if not isinstance(lam, ast.Lambda):
       raise SpecError('forall/exists need a lambda')
-    tys = [parse_type(self.const_str(a)) for a in n.args[1:]]
+    tstrs = [self.const_str(a) for a in n.args[1:]]
+    # "Cls@now": range over the objects that exist in the state the formula is evaluated in (default:
+    # the objects that existed in the pre-state), for invariants of code whose callees may allocate
+    now = [t.endswith('@now') for t in tstrs]
+    tys = [parse_type(t[:-4] if t.endswith('@now') else t) for t in tstrs]
     names = [a.arg for a in lam.args.args]
     consts = []
     c2 = cx
@@ -384,7 +388,7 @@ class SpecMixin(object):
           guards.append(subcls(typeof(c), cls_const(ty.name)))
           guards.append(c != NONE)
           # typed quantifiers range over the objects that existed in the pre-state
-          guards.append((cx.old.heap if cx.old is not None else cx.heap).alloc(c))
+          guards.append((cx.old.heap if cx.old is not None and not (i < len(now) and now[i]) else cx.heap).alloc(c))
       elif srt == I:
         v = VInt(c)
       elif srt == B:
